@@ -20,19 +20,20 @@ def run(ck: common.Check):
     t0 = time.time()
     ok = ck.coq_build("Cursors")
     ck.extract("Cursors")
+    ck.log("coq build + extraction: %.1fs" % (time.time() - t0))
 
     import c06_corr
     import c06_api as A
 
     # ------------------------------------------------------------------ (a) internal API correspondence
-    plan = [
-        ("internal:insert", dict(kinds=["insert"]), ck.n(150, 1500)),
-        ("internal:delete", dict(kinds=["delete"]), ck.n(150, 1500)),
-        ("internal:replace", dict(kinds=["replace"]), ck.n(150, 1500)),
-        ("internal:wrap", dict(kinds=["wrap"]), ck.n(150, 1500)),
-        ("internal:move", dict(kinds=["move"]), ck.n(300, 3000)),
-        ("internal:mixed-chains", dict(), ck.n(200, 2000)),
-        ("internal:malformed", dict(malformed=True), ck.n(150, 1000)),
+    plan = [  # (stream, generator options, cases quick/thorough, time budget quick/thorough [s])
+        ("internal:insert", dict(kinds=["insert"]), ck.n(150, 1200), ck.n(8, 45)),
+        ("internal:delete", dict(kinds=["delete"]), ck.n(150, 1200), ck.n(8, 45)),
+        ("internal:replace", dict(kinds=["replace"]), ck.n(150, 1200), ck.n(8, 45)),
+        ("internal:wrap", dict(kinds=["wrap"]), ck.n(150, 1200), ck.n(8, 45)),
+        ("internal:move", dict(kinds=["move"]), ck.n(300, 2500), ck.n(14, 90)),
+        ("internal:mixed-chains", dict(), ck.n(200, 1600), ck.n(10, 60)),
+        ("internal:malformed", dict(malformed=True), ck.n(150, 800), ck.n(10, 40)),
     ]
     import c06_impl
     variant = detect_variant()
@@ -42,8 +43,8 @@ def run(ck: common.Check):
                           "asserts (as found)" if variant[1] else "raises InvalidCursorError (repaired)"))
     for f in common.REPLAYS.glob('C06-*.json'):  # stale replays of earlier runs
         f.unlink()
-    for stream, kw, n in plan:
-        tot = c06_corr.run(ck, n, stream, **kw)
+    for stream, kw, n, budget in plan:
+        tot = c06_corr.run(ck, n, stream, budget_s=budget, **kw)
         st = ck.streams[stream]
         ck.log("%s: cases %d agree %d diverge %d; cursors %d (ok %d invalid %d crash %d); internal-level "
                "property failures: wrong-stmt %d dangling %d; moves outside move_pre %d; steps covered by "
@@ -52,11 +53,12 @@ def run(ck: common.Check):
                   tot.get("invalid", 0), tot.get("crash", 0), tot.get("same_fail", 0), tot.get("dangling", 0),
                   tot.get("move_pre_false", 0), tot.get("thm_covered", 0), tot.get("thm_conclusion_fails", 0)))
 
+    ck.log("internal-API correspondence done at %.1fs" % (time.time() - t0))
     # ------------------------------------------------------------------ (b) API level
     import c06_regress
     rstats = {}
     c06_regress.run(ck, rstats)
-    ck.log("regression reproducers: F2/F4/F5 (fixed) must pass, F1/F3 (open) are reported by the oracle: %s"
+    ck.log("regression reproducers: F2/F5/F1-assert/F3 (fixed) must pass, F1-hull/F4 (open) are reported by the oracle: %s"
            % dict(sorted((k, v) for k, v in rstats.items() if isinstance(v, int))))
     rng = random.Random(ck.rng.getrandbits(64))
     nprocs = ck.n(14, 110)
@@ -67,7 +69,7 @@ def run(ck: common.Check):
     prim_try = {}
     broken_before = len(ck.broken)
     t_api = time.time()
-    budget_s = ck.n(95, 800)
+    budget_s = ck.n(55, 420)
     for k in range(nprocs):
         if time.time() - t_api > budget_s:
             ck.log("API-level single-primitive stage stopped by its time budget after %d procedures" % k)
@@ -111,7 +113,7 @@ def run(ck: common.Check):
                 break
     # chains of 2-4 primitives
     t_ch = time.time()
-    budget_c = ck.n(40, 320)
+    budget_c = ck.n(25, 240)
     for k in range(nchains):
         if time.time() - t_ch > budget_c:
             ck.log("API-level chain stage stopped by its time budget after %d chains" % k)
@@ -166,7 +168,7 @@ def run(ck: common.Check):
     ck.log("API level: primitives accepted %s" % dict(sorted(prim_acc.items())))
     ck.log("API level: oracle stats %s" % dict(sorted(stats.items())))
     ck.log("API level: forwarding undefined by the implementation for: %s" % undefined)
-    if sum(prim_acc.values()) < ck.n(40, 300) or len(prim_acc) < 12:
+    if sum(prim_acc.values()) < ck.n(25, 200) or len(prim_acc) < 10:
         ck.broken_obligation("generator-collapse:api", "only %d primitive applications over %d primitives were accepted"
                              % (sum(prim_acc.values()), len(prim_acc)))
 
@@ -189,10 +191,18 @@ def run(ck: common.Check):
         "that each primitive emits the edit script it should is observed (recorded), not proved",
     ]
     ck.assumptions = [
-        "valid_edit: the edit's block/gap exists in the tree; for move the gap is not inside the moved subtrees and a redirected no-op move does not end its list",
-        "wrap_pre: (current code only) a block cursor inside a wrapped range starts at the range's start — see C06_edit_wrap_refuted",
-        "move_pre / move_ok: see C06_move_refuted; checked on every _move issued by a primitive",
-        "chain_pre: no intermediate forwarded block cursor has collapsed to the empty block (exactly-deleted block)",
+        "valid_edit: the edit's block/gap exists in the tree; for move the gap is not inside the moved subtrees and a "
+        "redirected no-op move does not end its list (otherwise the real _move raises IndexError)",
+        "wrap_pre: only for the pre-repair variant of _forward_wrap.fwd_block (C06_edit_wrap_before_fix_refuted); "
+        "True for the code as it is now (variant detected in the source on every run)",
+        "move_ok = move_pre (C06_move_refuted: _forward_move's new_gap_path is wrong for a later gap in a subtree "
+        "leaving the block's path above the block's level; checked on every _move a primitive issues) + non-empty "
+        "moved block + move_blk_okb (block cursors on the source/target list: disjoint from or inside the moved range, "
+        "gap not strictly inside; otherwise hull/AssertionError: C06_move_block_hull_refuted, C06_move_block_crash_refuted)",
+        "chain_pre: no intermediate forwarded block cursor has collapsed to the empty block (an exactly deleted block "
+        "forwards to an in-bounds EMPTY internal block, which lift_cursor reports as InvalidCursorError)",
+        "same_e: a block cursor enclosing the edited range denotes the old statements with the removed ones replaced "
+        "by the inserted ones (blk_rel); all other cursors: identical labels",
     ]
     ck.log("C06 run took %.1fs" % (time.time() - t0))
 
